@@ -40,6 +40,7 @@ type packetNumberSpace struct {
 	lastAckElicitingPacketTime monotime.Time
 
 	largestAcked protocol.PacketNumber
+	firstPN      protocol.PacketNumber // the first packet number of this space: nothing below it was ever sent
 	largestSent  protocol.PacketNumber
 }
 
@@ -53,6 +54,7 @@ func newPacketNumberSpace(initialPN protocol.PacketNumber, isAppData bool) *pack
 	return &packetNumberSpace{
 		history:      *newSentPacketHistory(isAppData),
 		pns:          pns,
+		firstPN:      initialPN,
 		largestSent:  protocol.InvalidPacketNumber,
 		largestAcked: protocol.InvalidPacketNumber,
 	}
@@ -379,7 +381,9 @@ func (h *sentPacketHandler) ReceivedAck(ack *wire.AckFrame, encLevel protocol.En
 	pnSpace := h.getPacketNumberSpace(encLevel)
 
 	largestAcked := ack.LargestAcked()
-	if largestAcked > pnSpace.largestSent {
+	// A packet number space need not start at 0: uQUIC's Chrome fingerprints send their first
+	// Initial with packet number 1, and a Retry restarts every space above what was used.
+	if largestAcked > pnSpace.largestSent || ack.LowestAcked() < pnSpace.firstPN {
 		return false, &qerr.TransportError{
 			ErrorCode:    qerr.ProtocolViolation,
 			ErrorMessage: "received ACK for an unsent packet",
